@@ -66,6 +66,10 @@ pub fn options_of(cfg: &Value) -> Options {
   if let Some(r) = cfg["retries"].as_u64() {
     o = o.with_maximum_retries(r as u8);
   }
+  // file-backed arenas may live at an offset into the file (ignored by the other backends)
+  if let Some(off) = cfg["offset"].as_u64() {
+    o = o.with_offset(off);
+  }
   o
 }
 
@@ -168,9 +172,11 @@ fn debug_kind<A: ArenaX>(a: &A) -> String {
 const HEADER_SIZE: usize = 24;
 const HEADER_FIELDS: usize = 20;
 
-fn file_rle(p: &std::path::Path, reserved: usize) -> (u64, Value) {
+fn file_rle(p: &std::path::Path, reserved: usize, offset: usize) -> (u64, Value) {
   match std::fs::read(p) {
-    Ok(mut b) => {
+    Ok(b) => {
+      // the file as the arena sees it: from the mapping offset on
+      let mut b = b[offset.min(b.len())..].to_vec();
       let hoff = reserved.div_ceil(8) * 8 + 8;
       for i in (hoff + HEADER_FIELDS)..(hoff + HEADER_SIZE).min(b.len()) {
         b[i] = 0;
@@ -476,7 +482,8 @@ impl<A: ArenaX> Inst<A> {
         self.closed = true;
         let _ = take_api();
         let reserved_of_file = self.cfg["reserved"].as_u64().unwrap_or(0) as usize;
-        let (len0, file0) = file_rle(&path, reserved_of_file);
+        let offset_of_file = self.cfg["offset"].as_u64().unwrap_or(0) as usize;
+        let (len0, file0) = file_rle(&path, reserved_of_file, offset_of_file);
         let cfg = self.cfg.clone();
         let mut o = options_of(&cfg);
         // capacity on reopen: absent (0), or an explicit value
@@ -498,7 +505,7 @@ impl<A: ArenaX> Inst<A> {
             v => panic!("bad variant {v}"),
           }
         };
-        let (len1, file1) = file_rle(&path, reserved_of_file);
+        let (len1, file1) = file_rle(&path, reserved_of_file, offset_of_file);
         match r {
           Ok(arena) => {
             self.arena = Box::into_raw(Box::new(arena));
